@@ -476,11 +476,17 @@ impl ProcfsHandle {
                     // If the lookup failed due to ENOENT, and the current
                     // procfs handle is "masked" in some way, try to create a
                     // temporary unmasked handle and retry the operation.
-                    Self::new_unmasked()
-                        // Use the old error if creating a new handle failed.
-                        .or(Err(err))?
-                        .open(base, subpath, oflags)
-                        .map(OwnedFd::from)
+                    match Self::new_unmasked() {
+                        // Only retry with a handle that is not masked itself.
+                        // An unprivileged caller only gets the host's /proc
+                        // back, and retrying on that one would make us recurse
+                        // (and create new handles) without bound.
+                        Ok(unmasked) if !unmasked.is_subset => {
+                            unmasked.open(base, subpath, oflags).map(OwnedFd::from)
+                        }
+                        // Use the old error if we could not get a better handle.
+                        _ => Err(err),
+                    }
                 } else {
                     Err(err)
                 }
